@@ -1,7 +1,7 @@
 (* C05: the guards of the public methods (regenerated from the source: gen/GenKernels.v) imply the
    kernel preconditions. *)
 From Coq Require Import ZArith List Bool Lia ZifyBool String.
-From PB Require Import lib.PySlice C05.Mon C05.Model C05.Callers C05.Logic C05.Proofs C05.ProofsDF
+From PB Require Import lib.PySlice C05.PyLen C05.Mon C05.Model C05.Callers C05.Logic C05.Proofs C05.ProofsDF C05.ProofsBZ
                        C05.Sigs gen.GenKernels.
 Import ListNotations.
 Open Scope Z_scope.
@@ -37,7 +37,7 @@ Lemma spline_guard num_knots degree :
   spline_knots_rejects num_knots = false -> spline_basis_rejects degree = false ->
   0 <= degree /\ degree + 1 <= spline_num_bases num_knots degree /\
   spline_num_bases num_knots degree = spline_nk num_knots degree - (degree + 1).
-Proof. unfold spline_knots_rejects, spline_basis_rejects, spline_num_bases, spline_nk. lia. Qed.
+Proof. unfold spline_knots_rejects, spline_basis_rejects, spline_num_bases, spline_nk, spline_knots_len. lia. Qed.
 
 Lemma btb_bty_public n num_knots degree :
   spline_knots_rejects num_knots = false -> spline_basis_rejects degree = false -> 0 <= n ->
@@ -79,13 +79,52 @@ Proof. intros. unfold pf_kernel_call. apply dmma_spec; lia. Qed.
 (* ---- rolling std *)
 Lemma rolling_std_public n half_window :
   1 <= n -> 0 <= half_window -> spec (rolling_std_call n half_window) (fun _ => True).
-Proof. intros. unfold rolling_std_call, padded_len. apply rolling_std_spec; lia. Qed.
+Proof. intros. unfold rolling_std_call, padded_len, prs_padded_len. apply rolling_std_spec; lia. Qed.
 
 (* ---- beads: banded products with square full shapes *)
 Lemma bdb_public n a_lower a_upper b_lower b_upper symmetric :
   0 <= n -> 0 <= a_lower -> 0 <= a_upper -> 0 <= b_lower -> 0 <= b_upper ->
   spec (bdb_call n a_lower a_upper b_lower b_upper symmetric) (fun _ => True).
 Proof. intros. unfold bdb_call. apply banded_dot_banded_spec; lia. Qed.
+
+(* ---- lengths that the translator derived from the NumPy calls of the source *)
+Lemma spline_knots_len_eq penalized num_knots degree :
+  spline_knots_len penalized num_knots degree = num_knots + 2 * degree.
+Proof. unfold spline_knots_len. destruct penalized; lia. Qed.
+
+(* np.pad(data, hw, 'reflect'): the padded array is long enough for EVERY half window, also hw >= n *)
+Lemma prs_padded_len_ok n half_window :
+  1 <= n -> 0 <= half_window ->
+  prs_padded_len n half_window = n + 2 * half_window /\ 2 * half_window + 1 <= prs_padded_len n half_window.
+Proof. unfold prs_padded_len. lia. Qed.
+
+Lemma pf_y_len_ok sections left_pad right_pad :
+  0 <= left_pad -> 0 <= right_pad -> sections <= pf_y_len sections left_pad right_pad.
+Proof. unfold pf_y_len. lia. Qed.
+
+Lemma pf_kernel_public2 sections left_pad right_pad h :
+  1 <= sections -> 0 <= left_pad -> 0 <= right_pad -> 0 <= h ->
+  spec (pf_kernel_call2 sections left_pad right_pad h) (fun _ => True).
+Proof.
+  intros. unfold pf_kernel_call2. pose proof (pf_y_len_ok sections left_pad right_pad). apply dmma_spec; lia.
+Qed.
+
+(* ---- corner_cutting *)
+Lemma corner_cutting_public n indices :
+  idx_sorted n indices -> spec (corner_cutting_call n indices) (fun _ => True).
+Proof. intros. unfold corner_cutting_call. apply bezier_spec. assumption. Qed.
+
+(* ---- _averaged_interp *)
+Definition seg_ok (n : Z) (se : Z * Z) : Prop := 0 <= fst se /\ fst se <= snd se /\ snd se <= n - 1.
+
+Lemma averaged_interp_calls_spec n segs :
+  Forall (seg_ok n) segs -> spec (averaged_interp_calls n segs) (fun _ => True).
+Proof.
+  intros HF. unfold averaged_interp_calls. apply spec_for__true. intros k Hk.
+  pose proof (nthz_Forall _ _ k (0, 0) HF Hk) as Hs.
+  destruct (nthz segs k (0, 0)) as [s e]. unfold seg_ok in Hs. cbn [fst snd] in Hs.
+  apply interp_inplace_spec; rewrite sl_len_in by lia; lia.
+Qed.
 
 (* ---- the spec predicate unfolded: what "safe" means for a log *)
 Lemma spec_safe {A} (m : M A) (Q : A -> Prop) :
